@@ -33,7 +33,7 @@ SPEC = {
             ob('harness_parent_36_1', unwindset=uw(37, 2), bounds=SCHED % (36, ' of which at most 1 is a successful non-terminal report (stopped / neither); the EINTR retry bound (31/32) lies inside'), optional_witness=NOGIVEUP, diff_runs=400),
             ob('harness_parent_36_2', unwindset=uw(37, 3), bounds=SCHED % (36, ' of which at most 2 are successful non-terminal reports (stopped / neither); the EINTR retry bound (31/32) lies inside'), optional_witness=NOGIVEUP, timeout=1800, diff_runs=400, tier='thorough'),
             ob('harness_registry_2', unwindset=uw(5, 5), bounds='TestRegistry::runAllTests over 2 tests, separate-process flag symbolic, ' + SCHED % (4, ' in total') + '; in-process bodies add 0..1 failures', optional_witness=OPT, diff_runs=300),
-            ob('harness_registry_3', unwindset=uw(4, 4), bounds='TestRegistry::runAllTests over 3 tests, separate-process flag symbolic, ' + SCHED % (5, ' in total') + '; in-process bodies add 0..1 failures', optional_witness=OPT, diff_runs=300, tier='thorough'),
+            ob('harness_registry_3', unwindset=uw(6, 6), bounds='TestRegistry::runAllTests over 3 tests, separate-process flag symbolic, ' + SCHED % (5, ' in total') + '; in-process bodies add 0..1 failures', optional_witness=OPT, diff_runs=300, tier='thorough'),
         ],
     }, {
         # real message construction (only the TestFailure constructors/destructor are empty), short histories
